@@ -217,6 +217,19 @@ PLAN = {
         quick=[rapid("prop", "TestProp", 300, min_evals=300)],
         thorough=[rapid("prop", "TestProp", 2000, shards=16, min_evals=2000)],
     ),
+    "C16": dict(
+        pkg="c16",
+        replay_race=True,
+        rule=("rapid-generated concurrent programs: 2..8 (thorough 16) goroutines, each building its OWN table from its own build history through its own creation path and rendering it 1..4 times in styles drawn from a small shared palette "
+              "(csv, html, json, markdown, every registered decoration, 'texttable'), through fresh or reused wrappers, into a writer that yields the processor at every Write so that renders interleave; optionally one more goroutine reads the decoration registry and the style listing meanwhile. "
+              "Each case is run 3 times. The test binary is built with the Go race detector (GORACE=halt_on_error=1). Oracle: no data race report and no fatal runtime error, and every concurrent output (or error-ness) equals the output of the same program run alone, sequentially, beforehand. "
+              "The case is written to disk before it runs so that a process-killing failure still has a replay file. Non-trivial: at least two goroutines render the same style concurrently. Distinct: FNV-64 of the case."),
+        level_text=("Generated concurrent programs under the Go race detector with a sequential-reference differential oracle; schedules are sampled (many rounds, a yielding writer, several GOMAXPROCS values in the thorough tier), not enumerated. Exploration level."),
+        level_note="The harness does not own Go's scheduler: an interleaving-dependent output mix-up that involves no unsynchronised access is found only if a sampled schedule hits it. The race detector reports an unsynchronised conflicting pair whenever both accesses execute in a run.",
+        technique="property-based testing (rapid) of generated concurrent programs under the Go race detector, differential against a sequential run",
+        quick=[rapid("prop", "TestProp", 300, race=True, env={"GORACE": "halt_on_error=1"}, shrinktime="5s")],
+        thorough=[rapid("prop", "TestProp", 600, shards=16, race=True, env={"GORACE": "halt_on_error=1"}, gomaxprocs=[2, 4, 8, 16], shrinktime="5s")],
+    ),
     "C18": dict(
         pkg="c18",
         rule=("strings built from a width-hostile token alphabet (newlines leading/trailing/repeated, CJK wide, full-width, combining, zero-width, emoji ZWJ/flag/skin-tone sequences, "
